@@ -21,9 +21,10 @@ static const q128 U53 = 0x1p-53Q;
 inline q128 gamma_k(int k) { return k * U53 / (1 - k * U53); }
 
 inline double val(uint64_t idx, int range) {
-  static const double special[] = {0.0, -0.0, 1.0, -1.0, 0x1p300, -0x1p300, 0x1p-300, 3.5, 0x1p-520, -0x1.8p-515, 0x1p-1021, -0x1.4p-1000};
+  static const double special[] = {0.0, -0.0, 1.0, -1.0, 0x1p300, -0x1p300, 0x1p-300, 3.5, 0x1p-520, -0x1.8p-515, 0x1p-1021, -0x1.4p-1000,
+                                   0x1.8p-1061, -0x1p-1074, 0x1p500, -0x1.4p-1040};  // subnormal operands (times 2^500 they are ordinary numbers again)
   uint64_t h = (idx + 1) * 0x9E3779B97F4A7C15ull; h ^= h >> 31;
-  if (range == 1 && idx % 9 == 0) return special[(h >> 8) % 12];
+  if (range == 1 && idx % 9 == 0) return special[(h >> 8) % 16];
   return ((double)(int64_t)(h >> 20) - 8796093022208.0) / 4194304.0;
 }
 
@@ -85,6 +86,24 @@ inline std::vector<PW> pointwise_kernels() {
       {"cplx_fftvec_addmul_sse", (pw_f)cplx_fftvec_addmul_sse, 2, true, 2}, {"cplx_fftvec_addmul_avx512", (pw_f)cplx_fftvec_addmul_avx512, 8, true, 2},
   };
   return std::vector<PW>(pw, pw + sizeof(pw) / sizeof(pw[0]));
+}
+
+// structured extreme operand combinations for the pointwise kernels (complex index i, class i % 6): a subnormal factor times 2^500
+// (an ordinary product), two small factors whose product is subnormal, a subnormal accumulator with a zero product, a subnormal
+// times one; every sixth slot keeps its dense value.  Gradual underflow must be honoured everywhere.
+inline void extreme_triples(int layout, uint64_t m, double* r, double* a, double* b) {
+  const double s = 0x1.8p-1061;
+  for (uint64_t i = 0; i < m; ++i) {
+    uint64_t re, im; idx_of(layout, m, i, re, im);
+    switch (i % 6) {
+      case 0: a[re] = s; a[im] = 0.0; b[re] = 0x1p500; b[im] = 0.0; r[re] = 0.0; r[im] = 0.0; break;
+      case 1: a[re] = 0x1p500; a[im] = 0.0; b[re] = 0.0; b[im] = s; r[re] = -0.0; r[im] = 0x1p-70; break;
+      case 2: a[re] = 0x1p-600; a[im] = 0x1p-600; b[re] = 0x1p-480; b[im] = 0.0; r[re] = 0.0; r[im] = 0.0; break;
+      case 3: a[re] = 0.0; a[im] = 0.0; b[re] = 1.0; b[im] = 1.0; r[re] = s; r[im] = -s; break;
+      case 4: a[re] = s; a[im] = s; b[re] = 1.0; b[im] = 0.0; r[re] = 0.0; r[im] = 0.0; break;
+      default: break;
+    }
+  }
 }
 
 // judges r (after the call) against the exact complex product; r0 = content of r before the call
